@@ -71,9 +71,7 @@ func VerifC07Stream() {
 	steps := verifParam("steps", 4)
 	ops := verifParam("ops", 2)
 	h := newHist(1000)
-	if verifParam("rich", 0) == 1 {
-		h.richState()
-	}
+	h.setupState()
 	subs := []*vSub{h.subscribe()}
 	second := pick("second-subscriber-at", steps+1)
 	for s := 0; s < steps; s++ {
